@@ -1371,6 +1371,7 @@ def _adv_items(arr, k):
             c = I(_unwrap_int(x))
             if c.is_const() and c.const_value() < 0:
                 c = I(arr.shape[j]) + c
+            check_index(c, I(arr.shape[j]))      # numpy raises IndexError for an out-of-bounds integer here as well
             items.append(('int', c))
             adv_pos.append(j)
         else:
